@@ -87,6 +87,7 @@ SPEC_NAMES = {
     "net_ops",
     "call_index",
     "call_args",
+    "call_kwarg",
     "clock0",
     "clock",
     "call_time",
@@ -895,6 +896,20 @@ class SpecMixin:
 
         self.bottoms = getattr(self, "bottoms", 0) + 1
         self.bottom_where = f"call_args({name!r}): no such call"
+        return BOTTOM
+
+    def sp_call_kwarg(self, e, fr):
+        """call_kwarg('Class.method', 'name'): the keyword argument `name` of the first such call
+        (None when the call did not pass it)"""
+        name = self.ev(e.args[0], fr)
+        kw = self.ev(e.args[1], fr)
+        for x in self.traces.get("call_kwargs", []):
+            if isinstance(x, tuple) and isinstance(x[0], str) and x[0].endswith(name):
+                return x[1].get(kw)
+        from .interp import BOTTOM
+
+        self.bottoms = getattr(self, "bottoms", 0) + 1
+        self.bottom_where = f"call_kwarg({name!r}): no such call"
         return BOTTOM
 
     def sp_clock0(self, e, fr):
